@@ -237,8 +237,21 @@ def rounds_loop(chk, crate, g):
                         # (`while accepted < rounds { if measured { accepted += 1 } }`)
                         if rv is one or (rv is not None and rv.op == "ite" and {rv.args[1], rv.args[2]} == {one, t}):
                             found = (r, t, bound[0])
+                # the same counted downwards: from `rounds`, continued while > 0, decreased by at most one per iteration
+                if init is rounds and isinstance(t, T.T):
+                    pos = [a for a in assume if (a.op == "ult" and a.args[0].op == "const" and a.args[0].aux == 0 and a.args[1] is t)
+                           or a is T.bnot(T.eqz(t))]
+                    nv = nxt.get(n)
+                    if pos and isinstance(nv, T.T):
+                        from ..loops import resolve
+                        s2 = st.fork()
+                        s2.assume = tuple(assume)
+                        rv = resolve(ev, s2, nv)
+                        less = T.sub(t, T.const(1, t.w))
+                        if rv is less or (rv.op == "ite" and {rv.args[1], rv.args[2]} == {less, t}):
+                            found = (r, t, pos[0])
     okl = found is not None
-    chk.ob("R5", "gen_entropy|rounds loop: a counter from 0, continued while counter < rounds, advanced by at most 1 per iteration", okl, "loop records: %s" % [(r.header, len(r.vars)) for r in recs],
+    chk.ob("R5", "gen_entropy|rounds loop: a counter from 0 up to rounds (or from rounds down to 0), moved by at most 1 per iteration", okl, "loop records: %s" % [(r.header, len(r.vars)) for r in recs],
            where=crate.bodies[genkey]["span"][0], sample={"loop_bound": T.show(found[2], 3)} if found else None)
     if okl:
         r = found[0]
